@@ -607,7 +607,11 @@ def eq_matrix(groups):
                 return f + ("(" + ",".join(erased(a) for a in args) + ")" if args else "")
             except Exception:
                 return repr(o)
-        out.append({"id": g["id"], "eq": eq, "eq0": eq0, "hash": hcls, "unif": un, "ground": gr, "erased": [erased(o) for o in objs],
+        reprs = [repr(o) for o in objs]
+        strs = [str(o) for o in objs]
+        # printing caches state inside the objects as well: == is observed a third time
+        eq2 = [[1 if (objs[i] == objs[j]) else 0 for j in range(n)] for i in range(n)]
+        out.append({"id": g["id"], "eq": eq, "eq0": eq0, "eq2": eq2, "hash": hcls, "unif": un, "ground": gr, "erased": [erased(o) for o in objs],
                     "repr": [repr(o) for o in objs], "types": [type(o).__name__ for o in objs]})
     return {"results": out}
 
